@@ -116,6 +116,7 @@ type runObs struct {
 }
 
 type ccase struct {
+	trees    []treeRun
 	flaky    []flakyRun
 	in       CaseInput
 	doc      any
@@ -131,6 +132,15 @@ type tableRow struct {
 	doc       any
 	root      *big.Int // nil = error
 	compactOK bool
+	entriesOK bool          // EntriesFromRDF succeeded and every entry hashes
+	entries   [][2]*big.Int // (key hash, value hash) of every entry
+}
+
+// treeRun: one merklization of the stripped document into a caller-supplied tree.
+type treeRun struct {
+	failAt int      // 0-based index of the Add call that fails; -1: none
+	pre    *big.Int // key hash already present in the tree; nil: none
+	obs    runObs
 }
 
 type drv struct {
@@ -458,6 +468,16 @@ func (d *drv) primitives(rep *common.Report, doc []byte, input any) tableRow {
 			if err != nil {
 				return err
 			}
+			row.entriesOK = true
+			for _, e := range es {
+				k, v, err := e.KeyValueMtEntries()
+				if err != nil {
+					row.entriesOK = false
+					row.entries = nil
+					return err
+				}
+				row.entries = append(row.entries, [2]*big.Int{k, v})
+			}
 			ctx := context.Background()
 			mt, err := merkletree.NewMerkleTree(ctx, memory.NewMemoryStorage(), 40)
 			if err != nil {
@@ -744,7 +764,7 @@ func (d *drv) evalCase(rep *common.Report, in CaseInput) *ccase {
 	}
 	// --- caller-supplied trees: an Add that fails must fail the merklization
 	if ss.out.Class == "ok" && ss.n > 0 && !mustFail {
-		d.treeRuns(rep, strB, ss, in)
+		d.treeRuns(rep, c, strB, ss, in)
 	}
 	// --- primitives: root table for the model, Normalize ignores SafeMode
 	c.table = append(c.table, tableRow{})
@@ -849,7 +869,7 @@ func newTree() merklize.MerkleTree {
 // treeRuns merklizes the (clean) document into caller-supplied trees: a fresh one,
 // one whose k-th Add fails, one that already holds another value under one of the
 // document's paths.
-func (d *drv) treeRuns(rep *common.Report, docB []byte, ref runObs, in CaseInput) {
+func (d *drv) treeRuns(rep *common.Report, c *ccase, docB []byte, ref runObs, in CaseInput) {
 	run := func(t merklize.MerkleTree) runObs {
 		mz, out := mzrun.Merklize(docB, merklize.WithDocumentLoader(d.loader), merklize.WithMerkleTree(t))
 		r := runObs{spec: []string{"caller-tree"}, out: out, mz: mz}
@@ -860,6 +880,7 @@ func (d *drv) treeRuns(rep *common.Report, docB []byte, ref runObs, in CaseInput
 		return r
 	}
 	fresh := run(newTree())
+	c.trees = append(c.trees, treeRun{failAt: -1, obs: fresh})
 	rep.Count("tree:fresh:" + fresh.out.Class)
 	if !sameObs(fresh, ref) {
 		rep.Fail("c15-caller-tree-changes-result", "merklizing into a fresh caller-supplied tree differs from the default tree", in)
@@ -868,6 +889,7 @@ func (d *drv) treeRuns(rep *common.Report, docB []byte, ref runObs, in CaseInput
 	}
 	for _, at := range []int{1, 1 + d.hashPick(docB, ref.n)} {
 		r := run(&failingTree{MerkleTree: newTree(), failAt: at})
+		c.trees = append(c.trees, treeRun{failAt: at - 1, obs: r})
 		rep.Count("tree:failing-add:" + r.out.Class)
 		if r.out.Class == "ok" {
 			rep.Fail("c15-tree-add-failure-ignored", fmt.Sprintf("MerklizeJSONLD reports success although Add #%d of the caller-supplied tree failed: a field of the document is not in the tree", at), in)
@@ -888,6 +910,7 @@ func (d *drv) treeRuns(rep *common.Report, docB []byte, ref runObs, in CaseInput
 		other := new(big.Int).Add(v, big.NewInt(1))
 		if err := t.Add(context.Background(), k, other); err == nil {
 			r := run(t)
+			c.trees = append(c.trees, treeRun{failAt: -1, pre: k, obs: r})
 			rep.Count("tree:pre-populated:" + r.out.Class)
 			if r.out.Class == "ok" {
 				what := fmt.Sprintf("MerklizeJSONLD reports success into a tree that already holds another value under the path %v", e.Parts)
@@ -1765,7 +1788,26 @@ func (d *drv) writeShards() error {
 				if row.root != nil {
 					r = "PRoot " + coqgen.Limbs(row.root)
 				}
-				tbl = append(tbl, fmt.Sprintf("(%s, %s, %s)", jsonCoq(f, row.doc), r, coqgen.Bool(row.compactOK)))
+				es := "None"
+				if row.entriesOK {
+					var l []string
+					for _, kv := range row.entries {
+						l = append(l, "("+coqgen.Limbs(kv[0])+", "+coqgen.Limbs(kv[1])+")")
+					}
+					es = "(Some [" + strings.Join(l, "; ") + "])"
+				}
+				tbl = append(tbl, fmt.Sprintf("(%s, %s, %s, %s)", jsonCoq(f, row.doc), r, coqgen.Bool(row.compactOK), es))
+			}
+			var trees []string
+			for _, tr := range c.trees {
+				fa, pre := "None", "None"
+				if tr.failAt >= 0 {
+					fa = fmt.Sprintf("(Some %d)", tr.failAt)
+				}
+				if tr.pre != nil {
+					pre = "(Some " + coqgen.Limbs(tr.pre) + ")"
+				}
+				trees = append(trees, fmt.Sprintf("(%s, %s, %s)", fa, pre, obsCoq(tr.obs)))
 			}
 			var runs []string
 			for _, r := range c.runs {
@@ -1803,9 +1845,9 @@ func (d *drv) writeShards() error {
 				}
 				dr = "(Some [" + strings.Join(l, "; ") + "])"
 			}
-			cs = append(cs, fmt.Sprintf("mkc15 %d [%s]\n  (%s)\n  (%s)\n  [%s]\n  [%s]\n  [%s] (%s) %s",
+			cs = append(cs, fmt.Sprintf("mkc15 %d [%s]\n  (%s)\n  (%s)\n  [%s]\n  [%s]\n  [%s]\n  [%s] (%s) %s",
 				i, strings.Join(ld, "; "), jsonCoq(f, c.doc), jsonCoq(f, c.stripped), strings.Join(tbl, ";\n   "),
-				strings.Join(runs, "; "), strings.Join(flaky, "; "), obsCoq(c.su), dr))
+				strings.Join(runs, "; "), strings.Join(flaky, "; "), strings.Join(trees, "; "), obsCoq(c.su), dr))
 			d.rep.Case(name, i, c.in)
 		}
 		f.Add("Definition cases_ : list c15case := " + coqgen.List(cs) + ".")
